@@ -297,6 +297,23 @@ def c19(ctx):
 
 
 def c07(ctx):
+    # L2: the directive-marking machine (Attr.tla) — exhaustive over all child-class sequences, then conformance of the
+    # real AttrStore with it, node by node (drift, not a verdict)
+    ctx.design_check("Attr", "SPECIFICATION Spec\nCONSTANT MaxLen = %d\nINVARIANTS DirectiveHitsNext NothingElse CommentedExact "
+                     "PendingExact\nCHECK_DEADLOCK FALSE\n" % (7 if ctx.quick else 8), workers=4)
+    da = os.path.join(ctx.work, "rec-attr")
+    C.record(da, universe="gap+fix", single="1/8" if ctx.quick else "1/2", pair="0/1", trivia_tags="off,cmt", widths="0",
+             parts="attr", passes="false", seed=ctx.seed, shards=6, max_bytes=20000)
+    import glob as _g
+    r = C.validate_traces("TraceAttr", 'CONSTANTS MaxLen = 1\n Rels = {"AttrConforms"}\n',
+                          sorted(_g.glob(os.path.join(da, "shard-*.ndjson"))), os.path.join(ctx.work, "val-attr"), specname="TSpec")
+    ctx.states += r["states"]
+    ctx.transitions += r["transitions"]
+    ctx.traces += r["traces"]
+    ctx.extra["attr_conformance"] = dict(nodes_events=r["checked"], drift=len(r["viol"]),
+                                         samples=[v["id"] for v in r["viol"][:5]])
+    if r["viol"]:
+        C.log("MODEL DRIFT: the real AttrStore disagrees with Attr.tla on %d documents (not a verdict)" % len(r["viol"]))
     fmt_family(ctx, ["R07"], "off", models=(), trivia_tags="off", gap_quick="1/1", pair_fixed="1/50", pair_quick="1/8",
                tabs="2,4")
 
